@@ -432,7 +432,7 @@ theorem average_oversamplePC_roundtrip (y : ℕ → K) (m n k : ℕ) (hn : 2 ≤
   rw [sum_congr rfl this, sum_const, card_range, nsmul_eq_mul, mul_div_cancel_left₀ _ hn0]
 
 /-- … and the last row, which holds the single final sample -/
-theorem average_oversamplePC_roundtrip_last (y : ℕ → K) (m n : ℕ) (hn : 2 ≤ n) (hm : 1 ≤ m) :
+theorem average_oversamplePC_roundtrip_last (y : ℕ → K) (m n : ℕ) (hn : 2 ≤ n) (_hm : 1 ≤ m) :
     Interval.averageY (oversamplePC y n) (oversampleLen m n) n (m - 1) = y (m - 1) := by
   have hc : Interval.rowCount (oversampleLen m n) n (m - 1) = 1 := by
     rw [oversampleLen_eq m n hn]; unfold Interval.rowCount; omega
@@ -489,15 +489,18 @@ example : StrictIncr ((3 - 1) * 4) (oversampleLin ex 4) :=
   oversampleLin_strictIncr ex 3 4 (by intro i _; simp [ex]) (by norm_num) (by norm_num)
 -- `extend_linspace([1, 2, 3], 2, 'both') = [-1, 0, 1, 2, 3, 4, 5]`
 example : (List.range 7).map (extendLin ex 3 2 .both none none) = [-1, 0, 1, 2, 3, 4, 5] := by
-  norm_num [List.range, List.range.loop, extendLin, extendLinLeft, extendLinRight,
+  simp [List.range, List.range.loop, extendLin, extendLinLeft, extendLinRight,
     Direction.hasLeft, Direction.hasRight, ex]
+  norm_num
 -- `extend_linspace([1, 2, 3], 4, 'right', rstop=4) = [1, 2, 3, 3.25, 3.5, 3.75, 4]`
 example : extendLin ex 3 4 .right none (some 4) (3 + 1) = 7 / 2 ∧
     extendLin ex 3 4 .right none (some 4) (3 + (4 - 1)) = 4 := by
-  norm_num [extendLin, extendLinRight, Direction.hasLeft, Direction.hasRight, ex]
+  simp [extendLin, extendLinRight, Direction.hasLeft, Direction.hasRight, ex]
+  norm_num
 -- `extend_constant([1, 2, 3], 2, 'both') = [1, 1, 1, 2, 3, 3, 3]`
 example : (List.range 7).map (extendConst ex 3 2 .both) = [1, 1, 1, 2, 3, 3, 3] := by
-  norm_num [List.range, List.range.loop, extendConst, Direction.hasLeft, Direction.hasRight, ex]
+  simp [List.range, List.range.loop, extendConst, Direction.hasLeft, Direction.hasRight, ex]
+  norm_num
 example : appendOneX ex 3 3 = 4 ∧ appendOneY ex 3 true 3 = 1 ∧ appendOneY ex 3 false 3 = 3 := by
   norm_num [appendOneX, appendOneY, ex]
 -- `IntervalArray(arange(9), 5)[1, 2] = 7`
@@ -520,7 +523,7 @@ example : Interval.rows 10 4 = 3 ∧ Interval.to2d (fun i => (i : ℚ)) 10 4 2 1
 example : Interval.averageY (fun i => (i : ℚ)) 10 4 2 = 17 / 2 := by
   norm_num [Interval.averageY, Interval.rowCount, sumTo, win]
 example : Interval.averageY (oversamplePC ex 4) (oversampleLen 3 4) 4 1 = 2 :=
-  average_oversamplePC_roundtrip ex 3 4 1 (by norm_num) (by norm_num)
+  (average_oversamplePC_roundtrip ex 3 4 1 (by norm_num) (by norm_num)).trans (by norm_num [ex])
 -- `sum_over_indices(arange(11), [0, 3, 6, 10]) = [3, 12, 30]`
 example : sumOverIndices (fun i => (i : ℚ)) [0, 3, 6, 10] = [3, 12, 30] := by
   norm_num [sumOverIndices, sumRange, sumTo, win]
